@@ -398,10 +398,21 @@ def answerOrder (ts : List TrxView) : List Media → List Nat → List (Nat × B
   | [], _, acc => some acc.reverse
   | s :: rest, used, acc =>
     let found :=
-      if !s.mid.isEmpty then findIdxFrom (fun i t => !used.contains i && t.mid = some s.mid) ts 0
+      if !s.mid.isEmpty then findIdxFrom (fun i t => !used.contains i && t.kind = s.kind && t.mid = some s.mid) ts 0
       else findIdxFrom (fun i t => !used.contains i && t.kind = s.kind) ts 0
     match found with
     | some i => answerOrder ts rest (i :: used) ((i, s.attrs.any (fun a => a.key = "rtcp-mux".toList)) :: acc)
+    | none => none
+
+/-- the matching before the round-2 `fix:` that added the kind test to the MID match -/
+def Legacy.answerOrder (ts : List TrxView) : List Media → List Nat → List (Nat × Bool) → Option (List (Nat × Bool))
+  | [], _, acc => some acc.reverse
+  | s :: rest, used, acc =>
+    let found :=
+      if !s.mid.isEmpty then findIdxFrom (fun i t => !used.contains i && t.mid = some s.mid) ts 0
+      else findIdxFrom (fun i t => !used.contains i && t.kind = s.kind) ts 0
+    match found with
+    | some i => Legacy.answerOrder ts rest (i :: used) ((i, s.attrs.any (fun a => a.key = "rtcp-mux".toList)) :: acc)
     | none => none
 
 def offeredBundle (sessionAttrs : List Attr) : Bool :=
